@@ -401,11 +401,20 @@ func (c *Client) ReadDirContext(ctx context.Context, p string) ([]os.FileInfo, e
 			if sid != id {
 				return nil, &unexpectedIDErr{id, sid}
 			}
-			count, data := unmarshalUint32(data)
+			count, data, err := unmarshalUint32Safe(data)
+			if err != nil {
+				return nil, err
+			}
 			for i := uint32(0); i < count; i++ {
 				var filename string
-				filename, data = unmarshalString(data)
-				_, data = unmarshalString(data) // discard longname
+				filename, data, err = unmarshalStringSafe(data)
+				if err != nil {
+					return nil, err
+				}
+				_, data, err = unmarshalStringSafe(data) // discard longname
+				if err != nil {
+					return nil, err
+				}
 				var attr *FileStat
 				attr, data, err = unmarshalAttrs(data)
 				if err != nil {
@@ -445,7 +454,10 @@ func (c *Client) opendir(ctx context.Context, path string) (string, error) {
 		if sid != id {
 			return "", &unexpectedIDErr{id, sid}
 		}
-		handle, _ := unmarshalString(data)
+		handle, _, err := unmarshalStringSafe(data)
+		if err != nil {
+			return "", err
+		}
 		return handle, nil
 	case sshFxpStatus:
 		return "", normaliseError(unmarshalStatus(id, data))
@@ -510,11 +522,17 @@ func (c *Client) ReadLink(p string) (string, error) {
 		if sid != id {
 			return "", &unexpectedIDErr{id, sid}
 		}
-		count, data := unmarshalUint32(data)
+		count, data, err := unmarshalUint32Safe(data)
+		if err != nil {
+			return "", err
+		}
 		if count != 1 {
 			return "", unexpectedCount(1, count)
 		}
-		filename, _ := unmarshalString(data) // ignore dummy attributes
+		filename, _, err := unmarshalStringSafe(data) // ignore dummy attributes
+		if err != nil {
+			return "", err
+		}
 		return filename, nil
 	case sshFxpStatus:
 		return "", normaliseError(unmarshalStatus(id, data))
@@ -681,7 +699,10 @@ func (c *Client) open(path string, pflags uint32) (*File, error) {
 		if sid != id {
 			return nil, &unexpectedIDErr{id, sid}
 		}
-		handle, _ := unmarshalString(data)
+		handle, _, err := unmarshalStringSafe(data)
+		if err != nil {
+			return nil, err
+		}
 		return &File{c: c, path: path, handle: handle}, nil
 	case sshFxpStatus:
 		return nil, normaliseError(unmarshalStatus(id, data))
@@ -946,11 +967,17 @@ func (c *Client) RealPath(path string) (string, error) {
 		if sid != id {
 			return "", &unexpectedIDErr{id, sid}
 		}
-		count, data := unmarshalUint32(data)
+		count, data, err := unmarshalUint32Safe(data)
+		if err != nil {
+			return "", err
+		}
 		if count != 1 {
 			return "", unexpectedCount(1, count)
 		}
-		filename, _ := unmarshalString(data) // ignore attributes
+		filename, _, err := unmarshalStringSafe(data) // ignore attributes
+		if err != nil {
+			return "", err
+		}
 		return filename, nil
 	case sshFxpStatus:
 		return "", normaliseError(unmarshalStatus(id, data))
@@ -1152,7 +1179,17 @@ func (f *File) readChunkAt(ch chan result, b []byte, off int64) (n int, err erro
 				return n, &unexpectedIDErr{id, sid}
 			}
 
-			l, data := unmarshalUint32(data)
+			l, data, err := unmarshalUint32Safe(data)
+			if err != nil {
+				return n, err
+			}
+			if uint64(l) > uint64(len(data)) {
+				return n, errShortPacket
+			}
+			if l == 0 {
+				// a DATA reply must carry at least one byte; without progress this loop would never end.
+				return n, io.ErrNoProgress
+			}
 			n += copy(b[n:], data[:l])
 
 		default:
@@ -1298,14 +1335,20 @@ func (f *File) readAt(b []byte, off int64) (int, error) {
 							err = &unexpectedIDErr{packet.id, sid}
 
 						} else {
-							l, data := unmarshalUint32(data)
-							n = copy(packet.b, data[:l])
+							var l uint32
+							l, data, err = unmarshalUint32Safe(data)
+							if err == nil && uint64(l) > uint64(len(data)) {
+								err = errShortPacket
+							}
+							if err == nil {
+								n = copy(packet.b, data[:l])
 
-							// For normal disk files, it is guaranteed that this will read
-							// the specified number of bytes, or up to end of file.
-							// This implies, if we have a short read, that means EOF.
-							if n < len(packet.b) {
-								err = io.EOF
+								// For normal disk files, it is guaranteed that this will read
+								// the specified number of bytes, or up to end of file.
+								// This implies, if we have a short read, that means EOF.
+								if n < len(packet.b) {
+									err = io.EOF
+								}
 							}
 						}
 
@@ -1527,10 +1570,16 @@ func (f *File) WriteTo(w io.Writer) (written int64, err error) {
 							err = &unexpectedIDErr{readWork.id, sid}
 
 						} else {
-							l, data := unmarshalUint32(data)
-							b = pool.Get()[:l]
-							n = copy(b, data[:l])
-							b = b[:n]
+							var l uint32
+							l, data, err = unmarshalUint32Safe(data)
+							if err == nil && (uint64(l) > uint64(len(data)) || uint64(l) > uint64(chunkSize)) {
+								err = errShortPacket
+							}
+							if err == nil {
+								b = pool.Get()[:l]
+								n = copy(b, data[:l])
+								b = b[:n]
+							}
 						}
 
 					default:
